@@ -27,6 +27,10 @@ ASSUMPTIONS = [
     "containment and cell geometry are asserted to 16*eps*(|centre|+width+|x|): cell centres are themselves rounded",
     "a particle removed in a tree simulation is flagged (y = NaN) and leaves the array at the next tree update",
     "particles are added strictly inside the box; removing the last particle / remove_all with a tree is C14's subject",
+    "no two particles are generated closer than 1e-10 root boxes in every coordinate (exact coincidence is a documented "
+    "tree error; pairs a few ulps apart cannot be separated by cells whose centres are rounded: the insertion recurses "
+    "without bound - observed, reported, not asserted)",
+    "shear image offsets are asserted for t >= 0 only (for t < 0 the library picks a different representative)",
     "image of a particle in shear-periodic boxes: (x - n Lx, y + 3/2 n OMEGA Lx t mod Ly, vy + 3/2 n OMEGA Lx) "
     "(docs/boundaryconditions.md, Rein & Liu 2012)",
 ]
@@ -52,7 +56,13 @@ def particle(draw, L, L0, dt, hashv, border, radius):
             lev = draw(st.sampled_from([0, 0, 1, 1, 2, 3, 6]))
             nmax = int(round(L[k] / L0)) * 2 ** lev
             j = draw(st.integers(0, nmax))
-            x.append(-L[k] / 2 + L0 * (j / float(2 ** lev)))
+            c = -L[k] / 2 + L0 * (j / float(2 ** lev))
+            c = min(max(c, -L[k] / 2), L[k] / 2)
+            # (not around 0.0: its neighbours are denormals, closer together than any cell can resolve)
+            nudge_ulps = draw(st.sampled_from([0, 0, 0, 1, -1, 2])) if c != 0.0 else 0
+            for _ in range(abs(nudge_ulps)):       # a few ulps next to the face (towards the inside at the outer faces)
+                c = math.nextafter(c, 0.0 if abs(c) >= L[k] / 2 else (math.inf if nudge_ulps > 0 else -math.inf))
+            x.append(c)
         else:
             x.append(draw(S.floats(-0.499, 0.499)) * L[k])
     vs = draw(st.sampled_from([0.0, 0.01, 0.3, 1.0, 1.0, 3.5])) * L0 / abs(dt)
@@ -63,7 +73,9 @@ def particle(draw, L, L0, dt, hashv, border, radius):
     else:
         v = [vs * draw(S.floats(-1.0, 1.0)) for _ in range(3)]
     return {"x": x[0], "y": x[1], "z": x[2], "vx": v[0], "vy": v[1], "vz": v[2],
-            "m": draw(st.sampled_from([0.0, 1e-3, 1.0])) if draw(st.integers(0, 3)) == 0 else draw(S.logfloats(1e-6, 1.0)),
+            # (two massless bodies make the merge formulas 0/0: masses > 0 whenever collisions are on)
+            "m": draw(st.sampled_from([0.0, 1e-3, 1.0])) if (not radius and draw(st.integers(0, 3)) == 0)
+            else draw(S.logfloats(1e-6, 1.0)),
             "r": radius * draw(S.logfloats(1e-2, 1.0)) if radius else 0.0, "hash": hashv}
 
 
@@ -127,6 +139,22 @@ def on_face(x, L, L0):
     if abs(v - round(v)) <= 1e-9:
         return 1
     return 0
+
+
+def too_close(parts, L0, extra=None):
+    """Two particles closer than 1e-10 root boxes in every coordinate: exact coincidence is a documented error of the
+    tree, and a pair a few ulps apart cannot be separated by cells whose centres are themselves rounded."""
+    pts = [(q["x"], q["y"], q["z"]) for q in parts]
+    if extra is not None:
+        return any(max(abs(a - b) for a, b in zip(p, extra)) < 1e-10 * L0 for p in pts)
+    pts.sort()
+    for i in range(len(pts)):
+        for j in range(i + 1, len(pts)):
+            if pts[j][0] - pts[i][0] >= 1e-10 * L0:
+                break
+            if max(abs(a - b) for a, b in zip(pts[i], pts[j])) < 1e-10 * L0:
+                return True
+    return False
 
 
 def new_sim(case):
@@ -241,8 +269,10 @@ def check_step(s0, s1, t1, cfg, tree_in_use, R, ctx, user_removed):
     half = np.array(L) / 2
     X1 = R.pos(s1)
     if b in ("periodic", "shear") and len(s1):
-        if (np.abs(X1) > half[None, :]).any():
-            k = int(np.nonzero((np.abs(X1) > half[None, :]).any(axis=1))[0][0])
+        # (a merger happens after the boundary check and its centre of mass is rounded: merged bodies are not asserted)
+        outside = (np.abs(X1) > half[None, :]).any(axis=1) & np.array([int(h) not in stamped for h in s1["hash"]])
+        if outside.any():
+            k = int(np.nonzero(outside)[0][0])
             raise Violation("%s boundary: particle hash %d is outside the box after the step: %r"
                             % (b, int(s1["hash"][k]), X1[k].tolist()))
     crossed_root = crossed_box = multi = False
@@ -357,8 +387,8 @@ def run_history(case, ctx):
     box = {"L0": cfg["L0"], "layout": cfg["layout"]}
     parts = case["particles"] if border else [nudge(q, cfg) for q in case["particles"]]
     parts = [q for q in parts if inside(q, L) or (border and all(abs(q[ax]) <= 0.5 * L[k] for k, ax in enumerate("xyz")))]
-    if len({(q["x"], q["y"], q["z"]) for q in parts}) != len(parts) or not parts:
-        ctx.skip("coincident particles")
+    if not parts or too_close(parts, cfg["L0"]):
+        ctx.skip("coincident or nearly coincident particles")
         return
     faces = [max(on_face(q[ax], L[k], cfg["L0"]) for k, ax in enumerate("xyz")) for q in parts]
     if border:
@@ -405,7 +435,10 @@ def run_history(case, ctx):
     def explicit_walk(tag):
         if not tree_cfg:
             return
-        n_alive = len(alive())
+        a = alive()
+        if len(a) and (np.abs(R.pos(a)) > (np.array(L) / 2)[None, :]).any():
+            return      # a body merged at the end of the step sits a rounding error outside the box until the next check
+        n_alive = len(a)
         try:
             sim.update_tree()
             sim.process_messages()
@@ -448,7 +481,8 @@ def run_history(case, ctx):
             q = op[1] if border else nudge(op[1], cfg)
             cur = alive()
             if q["hash"] in used_hashes or not (inside(q, L) or border) or \
-                    any(q["x"] == cur["x"][i] and q["y"] == cur["y"][i] and q["z"] == cur["z"][i] for i in range(len(cur))):
+                    too_close([{"x": cur["x"][i], "y": cur["y"][i], "z": cur["z"][i]} for i in range(len(cur))],
+                              cfg["L0"], extra=(q["x"], q["y"], q["z"])):
                 continue
             if border and not all(abs(q[ax]) <= 0.5 * L[k] for k, ax in enumerate("xyz")):
                 continue
